@@ -218,6 +218,8 @@ func ErrClass(err error) string {
 		return "ctx-deadline"
 	case errors.Is(err, gocql.ErrConnectionClosed):
 		return "conn-closed"
+	case errors.Is(err, gocql.ErrTooManyTimeouts):
+		return "too-many-timeouts"
 	case errors.Is(err, gocql.ErrNoStreams):
 		return "no-streams"
 	case errors.Is(err, gocql.ErrNoConnections):
